@@ -212,10 +212,11 @@ theorem C03_vcs_git_walk (raw1 raw2 : Py.Text) (st : State) (hst : State.init .g
   exact hc
 
 /-- (c) `VCSStrategyGit.is_submodule` on a path of the walk: the root-relative path is one of
-    the `.gitmodules` paths — whatever the working directory of the process (both sides of the
-    comparison are resolved against it, so it cancels).  For paths without `..` (the walk's
-    names never are; `.gitmodules` paths are normal, relative) and no symbolic link below the
-    working directory on the way (`resolve()` is modelled lexically). -/
+    the `.gitmodules` paths — whatever the working directory of the process and however the
+    root is spelt (both sides of the comparison are put below the root and resolved, so root
+    and working directory cancel).  For paths without `..` (the walk's names never are;
+    `.gitmodules` paths are normal, relative); `resolve()` is modelled lexically, i.e. no
+    symbolic link among the directories of the project on the way (the walk never enters one). -/
 theorem C03_vcs_submodule (subs : List PPath) (cwd : List Py.Text) (root : PPath) (comps : List Py.Text)
     (hcomps : NoDotDot comps) (hsubs : ∀ s ∈ subs, s.anchor = [] ∧ NoDotDot s.parts) :
     gitIsSubmodule subs cwd root (walkPath root comps) = subs.contains ⟨[], comps⟩ := by
@@ -227,7 +228,7 @@ theorem C03_vcs_submodule (subs : List PPath) (cwd : List Py.Text) (root : PPath
     obtain ⟨a, ps⟩ := s
     simp only at ha hp
     subst ha
-    rw [resolveLex_eq_iff cwd hcomps hp] at he
+    rw [resolveLex_join_eq_iff cwd root hcomps hp] at he
     rw [he]; exact hs
   · intro hm
     exact ⟨_, hm, rfl⟩
